@@ -315,6 +315,63 @@ impl<'a> Read for ChoppyReader<'a> {
     }
 }
 
+/// delivers at most `max` bytes per call; call number i (0-based, i < 64) reports ErrorKind::Interrupted before
+/// delivering anything when bit i of `mask` is set (a transient failure: a later call succeeds).
+/// `read_exact` is the documented contract of std's default (retry on Interrupted, UnexpectedEof at end of input)
+/// except that the transient error value is not materialised inside the retry loop: under CBMC the drop glue of
+/// std::io::Error (tagged pointer -> Box<dyn Error>) makes every query that drops one run out of memory.
+pub(crate) struct RetryReader<'a> {
+    pub data: &'a [u8],
+    pub pos: usize,
+    pub max: usize,
+    pub calls: usize,
+    pub mask: u64,
+    pub interrupts: usize,
+}
+impl<'a> RetryReader<'a> {
+    /// one delivery step; None = this call is interrupted (nothing delivered)
+    fn step(&mut self, buf: &mut [u8]) -> Option<usize> {
+        let i = self.calls;
+        self.calls += 1;
+        if i < 64 && (self.mask >> i) & 1 == 1 {
+            self.interrupts += 1;
+            return None;
+        }
+        let left = self.data.len() - self.pos;
+        let mut n = if buf.len() < left { buf.len() } else { left };
+        if n > self.max {
+            n = self.max;
+        }
+        buf[..n].copy_from_slice(&self.data[self.pos..self.pos + n]);
+        self.pos += n;
+        Some(n)
+    }
+}
+impl<'a> Read for RetryReader<'a> {
+    fn read(&mut self, buf: &mut [u8]) -> io::Result<usize> {
+        match self.step(buf) {
+            Some(n) => Ok(n),
+            None => Err(io::Error::from(io::ErrorKind::Interrupted)),
+        }
+    }
+    // the retry loop of std's default read_exact; the transient error value is never materialised (decoding its
+    // kind is a symbolic branch for CBMC, which would make every later position symbolic)
+    fn read_exact(&mut self, mut buf: &mut [u8]) -> io::Result<()> {
+        while !buf.is_empty() {
+            match self.step(buf) {
+                Some(0) => break,
+                Some(n) => buf = &mut buf[n..],
+                None => {}
+            }
+        }
+        if buf.is_empty() {
+            Ok(())
+        } else {
+            Err(io::Error::from(io::ErrorKind::UnexpectedEof))
+        }
+    }
+}
+
 /// behaves like a slice reader up to byte offset `limit` (symbolic); a read that would cross it either reports end of
 /// input (`fault` = None: the file was cut there) or fails with the given error kind (a hard I/O error at that offset)
 pub(crate) struct LimitReader<'a> {
@@ -339,6 +396,28 @@ impl<'a> Read for LimitReader<'a> {
             };
         }
         Ok(n)
+    }
+    // std's default read_exact over this reader, written without its retry loop: that loop decodes the kind of every
+    // error value (`is_interrupted`), which CBMC cannot resolve for std::io::Error's tagged pointer, so symbolic
+    // execution would also follow the retry branch and every later slice length would become symbolic. Contract kept:
+    // Ok iff all requested bytes lie before `limit` and inside the data; otherwise the reader's own error, or
+    // UnexpectedEof when the input simply ends.
+    fn read_exact(&mut self, buf: &mut [u8]) -> io::Result<()> {
+        let left = self.data.len() - self.pos;
+        let n = if buf.len() < left { buf.len() } else { left };
+        let start = self.pos;
+        buf[..n].copy_from_slice(&self.data[start..start + n]);
+        self.pos = start + n;
+        if start + n > self.limit {
+            return match self.fault {
+                None => Err(io::Error::from(io::ErrorKind::UnexpectedEof)),
+                Some(k) => Err(io::Error::from(k)),
+            };
+        }
+        if n < buf.len() {
+            return Err(io::Error::from(io::ErrorKind::UnexpectedEof));
+        }
+        Ok(())
     }
 }
 
